@@ -295,6 +295,23 @@ func (c *Ctx) ruleReflect(rule string, fns map[*ssa.Function]bool) {
 					cnt["mapindex"]++
 					c.reflectMapIndex(rule, fn, call, cnt["mapindex"])
 				}
+				if (m == "FieldByIndex" || m == "FieldByName") && len(call.Call.Args) == 2 && fromStructField(call.Call.Args[1]) {
+					// (e) struct-mapped objects: the field is named by a reflect.StructField descriptor (the field cache).
+					// Field access along an index path panics ("indirection through nil pointer to embedded struct") when a
+					// struct pointer embedded on the way is nil - a property of the VALUE (Validate / Serialize) or of the
+					// freshly allocated struct (Unserialize), not of the schema. FieldByIndexErr reports it instead.
+					cnt["fieldpath"]++
+					k := key(rule, c.M.Key(fn), sprintf("reflect.Value.%s #%d does not walk through a nil embedded pointer", m, cnt["fieldpath"]))
+					switch {
+					case isRecoverScope(fn):
+						c.R.Ok(rule, k, c.M.InstrPos(call), "field access along an index path", "the function recovers: the panic becomes the recovered error")
+					case noEmbeddedPointer(call.Call.Args[0]):
+						c.R.Ok(rule, k, c.M.InstrPos(call), "field access along an index path", "the struct type is statically known and embeds no pointer to a struct")
+					default:
+						c.R.Bad(rule, k, c.M.InstrPos(call), "reflect.Value."+m+" panics when a struct pointer embedded on the way to the field is nil",
+							"a struct-mapped object whose Go type embeds a *struct: Unserialize (fresh value) and Validate / Serialize (nil embedded pointer in the data) panic with 'indirection through nil pointer to embedded struct' instead of returning an error; FieldByIndexErr is the non-panicking form")
+					}
+				}
 				if !zeroPanics[m] {
 					continue
 				}
@@ -328,6 +345,63 @@ func (c *Ctx) ruleReflect(rule string, fns map[*ssa.Function]bool) {
 		}
 	}
 	c.R.Note("%s: %d reflect.Value method calls on values not produced by reflect.ValueOf in the same function are listed as not decided (kind / assignability preconditions)", rule, listed)
+}
+
+// fromStructField: v is the Name or Index of a reflect.StructField value.
+func fromStructField(v ssa.Value) bool {
+	isSF := func(t types.Type) bool {
+		if p, ok := t.Underlying().(*types.Pointer); ok {
+			t = p.Elem()
+		}
+		n, ok := t.(*types.Named)
+		return ok && n.Obj().Pkg() != nil && n.Obj().Pkg().Path() == "reflect" && n.Obj().Name() == "StructField"
+	}
+	switch x := v.(type) {
+	case *ssa.Field:
+		return isSF(x.X.Type())
+	case *ssa.UnOp:
+		if fa, ok := x.X.(*ssa.FieldAddr); ok {
+			return isSF(fa.X.Type())
+		}
+	}
+	return false
+}
+
+// noEmbeddedPointer: v is reflect.ValueOf(x) for an x whose static type is a struct (or pointer to one) without an
+// embedded pointer field, transitively.
+func noEmbeddedPointer(v ssa.Value) bool {
+	x := valueOfArg(v)
+	if x == nil {
+		return false
+	}
+	if mi, ok := x.(*ssa.MakeInterface); ok {
+		x = mi.X
+	}
+	t := x.Type()
+	if p, ok := t.Underlying().(*types.Pointer); ok {
+		t = p.Elem()
+	}
+	var ok func(t types.Type, depth int) bool
+	ok = func(t types.Type, depth int) bool {
+		st, isStruct := t.Underlying().(*types.Struct)
+		if !isStruct || depth > 6 {
+			return false
+		}
+		for i := 0; i < st.NumFields(); i++ {
+			f := st.Field(i)
+			if !f.Embedded() {
+				continue
+			}
+			if _, isPtr := f.Type().Underlying().(*types.Pointer); isPtr {
+				return false
+			}
+			if !ok(f.Type(), depth+1) {
+				return false
+			}
+		}
+		return true
+	}
+	return ok(t, 0)
 }
 
 // reflectException: E-STRUCTMAPPED - reflection on the zero value / field cache of a struct-mapped object inside
